@@ -37,3 +37,39 @@ Section Wf.
                     chain_path idx p /\ In i p
   }.
 End Wf.
+
+(* ---------- GNU hash: a well-formed .gnu.hash over a symbol table ----------
+   The hashed symbols are symoffset .. symoffset + nchains - 1; chain entry j belongs to symbol
+   symoffset + j.  Built "per the GNU format": every hashed symbol has a readable name; its chain
+   entry carries its hash (bit 0 aside); both of its bloom bits are set in its bloom word; its
+   bucket's chain starts at or before it with no stop bit in between. *)
+Section GnuWf.
+  Variables (s : espec) (c : class) (hdr : gnuhdr) (bloom buckets chains symtab strtab : buf).
+  Definition gwidth : N := match c with ELF32 => 32 | ELF64 => 64 end.
+  Definition bloom_word (i : N) : option N :=
+    match c with
+    | ELF32 => res_ok (table_get (parse_u32 s c) 4 bloom i)
+    | ELF64 => res_ok (table_get (parse_u64 s c) 8 bloom i)
+    end.
+  Definition bit_set (w b : N) : Prop := N.land w (N.shiftl 1 b) <> 0.
+  Definition gname (j : N) : option (list N) := sym_name s c symtab strtab (j + gh_symoffset hdr).
+  Record gnu_wf : Prop := {
+    gwf_nbucket : 0 < table_len 4 buckets;
+    gwf_nbloom : 0 < gh_nbloom hdr;
+    gwf_bloom_words : forall i, i < gh_nbloom hdr -> exists w, bloom_word i = Some w;
+    gwf_nshift : gh_nshift hdr < 32;
+    gwf_symoffset : gh_symoffset hdr <= U32_MAX;
+    gwf_chains_small : table_len 4 chains <= U32_MAX * U32_MAX;
+    gwf_named : forall j, j < table_len 4 chains -> exists nm, gname j = Some nm;
+    gwf_chain_hash : forall j nm ch, j < table_len 4 chains -> gname j = Some nm -> word_at s c chains j = Some ch ->
+                                     N.lor ch 1 = N.lor (gnu_hash nm) 1;
+    gwf_bloom : forall j nm, j < table_len 4 chains -> gname j = Some nm ->
+      exists w, bloom_word ((gnu_hash nm / gwidth) mod gh_nbloom hdr) = Some w /\
+                bit_set w (gnu_hash nm mod gwidth) /\
+                bit_set w (N.shiftr (gnu_hash nm) (gh_nshift hdr) mod gwidth);
+    gwf_bucket : forall j nm, j < table_len 4 chains -> gname j = Some nm ->
+      exists st, word_at s c buckets (gnu_hash nm mod table_len 4 buckets) = Some st /\
+                 gh_symoffset hdr <= st /\ st - gh_symoffset hdr <= j /\
+                 forall k ch, st - gh_symoffset hdr <= k -> k < j -> word_at s c chains k = Some ch -> N.land ch 1 = 0
+  }.
+End GnuWf.
